@@ -984,6 +984,13 @@ pub struct S2<M: Machine> {
     /// a CONNACK has at some point of this history set the limit in force below the configured
     /// one (the id allocator's cursor may have been left beyond it for good)
     pub limit_ever_lowered: bool,
+    /// the id the allocator handed out last (0 after a wrap), as far as the calls show it
+    pub last_issued: u16,
+    /// a CONNACK lowered the limit to or below the id handed out last (the situation the v5 allocator's
+    /// `next == limit` wrap test cannot recover from)
+    pub lowered_to_or_below_last_id: bool,
+    /// how the publish written last got to the wire
+    pub last_publish_via: Option<Via>,
     pub manual: bool,
     /// `EventLoop.pending`
     pub pending: VecDeque<M::Req>,
@@ -1006,6 +1013,9 @@ impl<M: Machine> S2<M> {
             limit_cfg: limit,
             limit_eff: limit,
             limit_ever_lowered: false,
+            last_issued: 0,
+            lowered_to_or_below_last_id: false,
+            last_publish_via: None,
             manual,
             pending: VecDeque::new(),
             connected: true,
@@ -1051,6 +1061,20 @@ impl<M: Machine> S2<M> {
         let c = self.call(via, view, |st| st.handle_outgoing(req));
         if let Outcome::Ok(Some(p)) = &c.outcome {
             self.wire.push(p.clone());
+            if matches!(p, Pk::Publish { qos, .. } if *qos > 0) {
+                self.last_publish_via = Some(via);
+            }
+        }
+        if via != Via::Replay && !self.dead {
+            // what the allocator handed out: on the packet, or on the publish it parked
+            let id = match &c.outcome {
+                Outcome::Ok(Some(p)) if p.pkid() != 0 => Some(p.pkid()),
+                Outcome::Ok(None) => self.st.collision().map(|p| p.pkid()).filter(|i| *i != 0),
+                _ => None,
+            };
+            if let Some(id) = id {
+                self.last_issued = if id >= self.limit_eff { 0 } else { id };
+            }
         }
         c
     }
@@ -1091,6 +1115,7 @@ impl<M: Machine> S2<M> {
         if let (Ver::V5, true, Pk::ConnAck { receive_max: Some(rm), .. }) = (self.ver, c.outcome.is_ok(), p) {
             self.limit_eff = (*rm).min(self.limit_cfg);
             self.limit_ever_lowered |= self.limit_eff < self.limit_cfg;
+            self.lowered_to_or_below_last_id |= self.last_issued >= self.limit_eff;
         }
         c
     }
@@ -1153,6 +1178,7 @@ impl<M: Machine> S2<M> {
         if let (true, Pk::ConnAck { receive_max: Some(rm), .. }) = (c.outcome.is_ok(), connack) {
             self.limit_eff = (*rm).min(self.limit_cfg);
             self.limit_ever_lowered |= self.limit_eff < self.limit_cfg;
+            self.lowered_to_or_below_last_id |= self.last_issued >= self.limit_eff;
         }
         Some(c)
     }
@@ -1166,6 +1192,7 @@ impl<M: Machine> S2<M> {
         if let (true, Pk::ConnAck { receive_max: Some(rm), .. }) = (c.outcome.is_ok(), connack) {
             self.limit_eff = (*rm).min(self.limit_cfg);
             self.limit_ever_lowered |= self.limit_eff < self.limit_cfg;
+            self.lowered_to_or_below_last_id |= self.last_issued >= self.limit_eff;
         }
         Some(c)
     }
